@@ -96,7 +96,7 @@ func discover() ([]*Group, error) {
 			files, _ := filepath.Glob(filepath.Join(g.Dir, pd.Name(), "*.go"))
 			sort.Strings(files)
 			for _, f := range files {
-				if err := parseHarnessFile(g, pd.Name(), f); err != nil {
+				if err := parseHarnessFile(g, pd.Name(), f, false); err != nil {
 					return nil, err
 				}
 				src, _ := os.ReadFile(f)
@@ -107,7 +107,7 @@ func discover() ([]*Group, error) {
 							g.Twins = map[string][]string{}
 						}
 						g.Twins[tp] = append(g.Twins[tp], f)
-						if err := parseHarnessFile(g, tp, f); err != nil {
+						if err := parseHarnessFile(g, tp, f, true); err != nil {
 							return nil, err
 						}
 					}
@@ -126,7 +126,7 @@ func discover() ([]*Group, error) {
 	return groups, nil
 }
 
-func parseHarnessFile(g *Group, pkg, file string) error {
+func parseHarnessFile(g *Group, pkg, file string, isTwin bool) error {
 	src, err := os.ReadFile(file)
 	if err != nil {
 		return err
@@ -156,6 +156,7 @@ func parseHarnessFile(g *Group, pkg, file string) error {
 		}
 		m := &Meta{Group: g.Name, Pkg: pkg, Name: fd.Name.Name, File: file, Tiers: map[string]bool{}, Paths: 20000, Unwind: 300, Depth: 200, Validate: 3, TimeoutS: 60}
 		found := false
+		var twinProps []string
 		if fd.Doc != nil {
 			for _, c := range fd.Doc.List {
 				if !strings.HasPrefix(c.Text, "//verif:harness") {
@@ -167,6 +168,8 @@ func parseHarnessFile(g *Group, pkg, file string) error {
 					switch k {
 					case "props":
 						m.Props = strings.Split(v, ",")
+					case "twinprops":
+						twinProps = strings.Split(v, ",")
 					case "tiers":
 						for _, t := range strings.Split(v, ",") {
 							m.Tiers[t] = true
@@ -197,6 +200,9 @@ func parseHarnessFile(g *Group, pkg, file string) error {
 		}
 		if !found {
 			return fmt.Errorf("%s: %s has no //verif:harness directive", file, fd.Name.Name)
+		}
+		if twinProps != nil && isTwin {
+			m.Props = twinProps // the twin instance (other stack) serves a subset of the properties in the quick tier
 		}
 		if len(m.Tiers) == 0 {
 			m.Tiers["quick"], m.Tiers["thorough"] = true, true
